@@ -3,5 +3,5 @@ CONSTANTS
   DiagOnly = FALSE
 INIT Init
 NEXT Next
-INVARIANT PermInv
+INVARIANTS PermInv LevelRange ChainLevels
 CHECK_DEADLOCK FALSE
